@@ -276,16 +276,13 @@ Fixpoint creplace (c : str) (e : centry) (tab : list (str * centry)) : list (str
   | (c', e') :: tab' => if str_eqb c' c then (c', e) :: tab' else (c', e') :: creplace c e tab'
   end.
 
-(* None = the generator crashes (ValueError of values_from_list, finding enum_dup_crash); Some Err = a PropertyError is reported.
-   The fold is parametric in the table builder: EnumProperty.build uses values_from_list (member name -> value), LiteralEnumProperty.build
-   (literal_enums: true, literal_enum_property.py:121-133) has its own copy of the same guard over `values = set(value_list)`. *)
-Definition add_decl_g (tbl : list evalue -> option (list (str * evalue))) (prefix : str) (tab : list (str * centry)) (d : cdecl)
-  : option (res (list (str * centry))) :=
+(* None = the generator crashes (ValueError of values_from_list, finding enum_dup_crash); Some Err = a PropertyError is reported *)
+Definition add_decl (prefix : str) (tab : list (str * centry)) (d : cdecl) : option (res (list (str * centry))) :=
   let c := decl_class prefix d in
   match d with
   | DModel _ => Some (match clookup c tab with Some _ => Err | None => Ok (tab ++ [(c, CModel)]) end)
   | DEnum _ _ vs =>
-    match tbl vs with
+    match values_from_list vs with
     | None => None
     | Some t => Some (match clookup c tab with
                       | None => Ok (tab ++ [(c, CEnum t)])
@@ -295,37 +292,23 @@ Definition add_decl_g (tbl : list evalue -> option (list (str * evalue))) (prefi
     end
   end.
 
-Fixpoint add_decls_g (tbl : list evalue -> option (list (str * evalue))) (prefix : str) (tab : list (str * centry)) (errs : list cdecl)
-  (ds : list cdecl) : option (list (str * centry) * list cdecl) :=
+Fixpoint add_decls (prefix : str) (tab : list (str * centry)) (errs : list cdecl) (ds : list cdecl)
+  : option (list (str * centry) * list cdecl) :=
   match ds with
   | [] => Some (tab, errs)
-  | d :: ds' => match add_decl_g tbl prefix tab d with
+  | d :: ds' => match add_decl prefix tab d with
                 | None => None
-                | Some (Ok tab') => add_decls_g tbl prefix tab' errs ds'
-                | Some Err => add_decls_g tbl prefix tab (errs ++ [d]) ds'
+                | Some (Ok tab') => add_decls prefix tab' errs ds'
+                | Some Err => add_decls prefix tab (errs ++ [d]) ds'
                 end
   end.
 
-Definition model_decls_g tbl (prefix : str) (ds : list cdecl) := add_decls_g tbl prefix [] [] ds.
+Definition model_decls (prefix : str) (ds : list cdecl) := add_decls prefix [] [] ds.
 
 (* same member names and the same value under every member name *)
 Definition tbl_equiv (a b : list (str * evalue)) : Prop := forall k, elookup k a = elookup k b.
-Definition decl_table_g (tbl : list evalue -> option (list (str * evalue))) (d : cdecl) : option (list (str * evalue)) :=
-  match d with DModel _ => None | DEnum _ _ vs => tbl vs end.
-
-(* the Enum style *)
-Definition add_decl := add_decl_g values_from_list.
-Definition add_decls := add_decls_g values_from_list.
-Definition model_decls := model_decls_g values_from_list.
-Definition decl_table := decl_table_g values_from_list.
-
-(* the Literal style: `values: set = set(value_list)` and `values != existing.values` is set inequality.  A set of str | int is represented
-   as a table keyed by the value itself (type tag + text), so that table_eqb is set equality; never crashes *)
-Definition lit_key (v : evalue) : str := match v with EInt z => 105 :: dec_Z z | EStr s => 115 :: s end.
-Fixpoint lit_go (vs : list evalue) (out : list (str * evalue)) : list (str * evalue) :=
-  match vs with [] => out | v :: vs' => lit_go vs' (assoc_set (lit_key v) v out) end.
-Definition lit_table (vs : list evalue) : option (list (str * evalue)) := Some (lit_go vs []).
-Definition model_decls_lit := model_decls_g lit_table.
+Definition decl_table (d : cdecl) : option (list (str * evalue)) :=
+  match d with DModel _ => None | DEnum _ _ vs => values_from_list vs end.
 
 (* ------------------------------------------------------------------ (b') the two parameter lists of one operation
    Endpoint.from_data calls add_parameters with the OPERATION's list, and EndpointCollection.from_data then calls it again with the
@@ -365,3 +348,47 @@ Definition g_params2_quiet (prefix : str) (op item : option (list (loc * str))) 
                         end
               end
   end.
+
+(* ------------------------------------------------------------------ (d'') the same fold for any table builder; the Literal style
+   LiteralEnumProperty.build (literal_enums: true, literal_enum_property.py:121-133) has its own copy of EnumProperty.build's guard, over
+   `values = set(value_list)`: `values != existing.values` is set inequality.  add_decl_g values_from_list is add_decl. *)
+Section DeclsG.
+Variable tbl : list evalue -> option (list (str * evalue)).
+
+Definition add_decl_g (prefix : str) (tab : list (str * centry)) (d : cdecl) : option (res (list (str * centry))) :=
+  let c := decl_class prefix d in
+  match d with
+  | DModel _ => Some (match clookup c tab with Some _ => Err | None => Ok (tab ++ [(c, CModel)]) end)
+  | DEnum _ _ vs =>
+    match tbl vs with
+    | None => None
+    | Some t => Some (match clookup c tab with
+                      | None => Ok (tab ++ [(c, CEnum t)])
+                      | Some (CEnum t') => if table_eqb t t' then Ok (creplace c (CEnum t) tab) else Err
+                      | Some CModel => Err
+                      end)
+    end
+  end.
+
+Fixpoint add_decls_g (prefix : str) (tab : list (str * centry)) (errs : list cdecl) (ds : list cdecl)
+  : option (list (str * centry) * list cdecl) :=
+  match ds with
+  | [] => Some (tab, errs)
+  | d :: ds' => match add_decl_g prefix tab d with
+                | None => None
+                | Some (Ok tab') => add_decls_g prefix tab' errs ds'
+                | Some Err => add_decls_g prefix tab (errs ++ [d]) ds'
+                end
+  end.
+
+Definition model_decls_g (prefix : str) (ds : list cdecl) := add_decls_g prefix [] [] ds.
+Definition decl_table_g (d : cdecl) : option (list (str * evalue)) :=
+  match d with DModel _ => None | DEnum _ _ vs => tbl vs end.
+End DeclsG.
+
+(* a set of str | int as a table keyed by the value itself (type tag + text): table_eqb is then set equality; never crashes *)
+Definition lit_key (v : evalue) : str := match v with EInt z => 105 :: dec_Z z | EStr s => 115 :: s end.
+Fixpoint lit_go (vs : list evalue) (out : list (str * evalue)) : list (str * evalue) :=
+  match vs with [] => out | v :: vs' => lit_go vs' (assoc_set (lit_key v) v out) end.
+Definition lit_table (vs : list evalue) : option (list (str * evalue)) := Some (lit_go vs []).
+Definition model_decls_lit := model_decls_g lit_table.
